@@ -91,10 +91,10 @@ class Ctx:
         with use_state(self.state):
             return new_list(items)
 
-    def pydict(self, d):
+    def pydict(self, d, unordered=False):
         from .interp import new_dict
         with use_state(self.state):
-            return new_dict(d)
+            return new_dict(d, unordered=unordered)
 
     def enum(self, module, clsname, member):
         m = load_module(module)
